@@ -78,3 +78,17 @@ package clickhouse_planner
 //@     go: if err != nil { panic(err) }
 //@     go: if strings.Contains(str, "(samples.timestamp_ns) < (1000000005000000000)") { confirm("window ends at 1000000007 s but the read stops before the bucket that starts at 1000000005 s, which holds the rows of [1000000005, 1000000007) s: " + str) }
 //@   end
+
+// ---------------------------------------------------------------- index reads: the date range must cover the window (C13)
+
+// Lower date bound used by every LogQL index read: the UTC day of (From - 30 min).
+//@ func FormatFromDate [C13]
+//@   modifies fmtDay
+//@   ensures fmtDay == fdiv(from.UnixNano() - 1800000000000, 86400000000000)
+
+// The upper date bound must not be earlier than the UTC day of the end of the
+// window, whatever zone the process runs in (index rows are dated in UTC).
+//@ func (*SeriesPlanner).Process [C13]
+//@   check upper-date: result1 == nil ==> fmtDay >= fdiv(ctx.To.UnixNano(), 86400000000000)
+//@ func (*ValuesPlanner).Process [C13]
+//@   check upper-date: result1 == nil ==> fmtDay >= fdiv(ctx.To.UnixNano(), 86400000000000)
